@@ -15,6 +15,7 @@ import MilaModel.Lemmas.FsPath
 import MilaModel.Lemmas.FsLayer
 import MilaModel.Lemmas.FsBridge
 import MilaModel.Lemmas.FsSuffix
+import MilaModel.Lemmas.FsClosed
 import MilaModel.Props.C14
 import MilaModel.Lemmas.ComposeLz
 
@@ -994,5 +995,176 @@ example : ∃ fs', demoFs.write (Compose.withRealLz demoEnv) (bs ['y', '.', 'l',
   refine ⟨(demoFs.write (Compose.withRealLz demoEnv) (bs ['y', '.', 'l', 'z']) [7, 7, 7, 7, 7] false).1,
     Prod.ext rfl hok, ?_⟩
   exact read_after_write_lz _ hE demoFs _ _ _ false (fun _ => by decide) (Prod.ext rfl hok)
+
+/-! ### the tree invariant: layers stay directory trees, and `stat` is the kernel's path walk -/
+
+/-- **Initial layers.** A layer whose directory walk is the walk of a real tree (no path twice, root
+not listed, the parent of every entry listed as a directory — what the harness' walks and initial
+trees satisfy; decidable, `Layer.isTreeB`) satisfies the tree invariant `Layer.Closed`: every stored
+path's proper prefixes are stored directories, no path is stored twice, nothing below a file. -/
+theorem initial_closed (layers : List Layer) (h : ∀ l ∈ layers, (walkOf l).IsTree) :
+    ∀ l ∈ layers, l.Closed := fun l hl => Layer.closed_of_isTree l (h l hl)
+
+private theorem closed_setTop (fs : Fs) (t : Layer) (hwf : ∀ l ∈ fs.layers, l.Closed) (ht : t.Closed) :
+    ∀ l ∈ (fs.setTop t).layers, l.Closed := by
+  intro l hl
+  rw [setTop_layers] at hl
+  rcases List.mem_append.mp hl with h | h
+  · exact hwf l (List.dropLast_subset _ h)
+  · simp at h; subst h; exact ht
+
+private theorem closed_writeAt (fs : Fs) (a c : Bytes) (hwf : ∀ l ∈ fs.layers, l.Closed) :
+    ∀ l ∈ (fs.writeAt a c).1.layers, l.Closed := by
+  rcases writeAt_cases fs a c with ⟨_, h⟩ | ⟨top, htop, h, _⟩
+  · rw [h]; exact hwf
+  · rw [h]
+    exact closed_setTop fs _ hwf (Layer.closed_write (hwf top (List.mem_of_getLast? htop)) a c)
+
+/-- **One operation keeps the invariant**: `write` (also a rejected write that has already created
+leading directories), `create_dir`, the archive writers — any path, payload, localisation flag. -/
+theorem step_closed (E : Env) (fs : Fs) (op : Op E) (hwf : ∀ l ∈ fs.layers, l.Closed) :
+    ∀ l ∈ (step E fs op).layers, l.Closed := by
+  have hwrite : ∀ p b loc, ∀ l ∈ (fs.write E p b loc).1.layers, l.Closed := by
+    intro p b loc
+    rw [write_unfold]
+    cases fs.actualPath p loc with
+    | err e => exact hwf
+    | panic => exact hwf
+    | ok a =>
+      simp only
+      cases encoded E fs p b with
+      | err e => exact hwf
+      | panic => exact hwf
+      | ok c => exact closed_writeAt fs a c hwf
+  cases op with
+  | write p b loc => exact hwrite p b loc
+  | writeArchive p a loc =>
+    simp only [step, Fs.writeArchive, Fs.serThenWrite]
+    cases reclass Err.Invalid (E.binSer a) with
+    | ok bytes => exact hwrite p bytes loc
+    | err e => exact hwf
+    | panic => exact hwf
+  | writeTextArchive p t loc =>
+    simp only [step, Fs.writeTextArchive, Fs.serThenWrite]
+    cases reclass Err.Invalid (E.txtSer t) with
+    | ok bytes => exact hwrite p bytes loc
+    | err e => exact hwf
+    | panic => exact hwf
+  | createDir p loc =>
+    simp only [step, Fs.createDir]
+    cases fs.actualPath p loc with
+    | err e => exact hwf
+    | panic => exact hwf
+    | ok a =>
+      simp only
+      cases htop : fs.layers.getLast? with
+      | none => exact hwf
+      | some top =>
+        have hnew := Layer.closed_createDir (hwf top (List.mem_of_getLast? htop)) a
+        dsimp only
+        generalize top.createDir a = r at hnew
+        obtain ⟨t, o⟩ := r
+        cases o with
+        | ok u => cases u; exact closed_setTop fs t hwf hnew
+        | err e => exact closed_setTop fs t hwf hnew
+        | panic => exact closed_setTop fs t hwf hnew
+
+/-- **history_closed.** Every history of state-changing operations (read-only operations return no
+state) keeps every layer a directory tree.  No domain restriction on paths. -/
+theorem history_closed (E : Env) (fs : Fs) (ops : List (Op E)) (hwf : ∀ l ∈ fs.layers, l.Closed) :
+    ∀ l ∈ (run E fs ops).layers, l.Closed := by
+  induction ops generalizing fs with
+  | nil => exact hwf
+  | cons op rest ih => exact ih (step E fs op) (step_closed E fs op hwf)
+
+/-- From real directory walks, along any history. -/
+theorem history_closed_of_walks (E : Env) (fs : Fs) (ops : List (Op E))
+    (h : ∀ l ∈ fs.layers, (walkOf l).IsTree) : ∀ l ∈ (run E fs ops).layers, l.Closed :=
+  history_closed E fs ops (initial_closed fs.layers h)
+
+/-- `stat` with the kernel's component-wise path walk (every ancestor must be a directory). -/
+def statPosix (l : Layer) (path : Bytes) : Option Node :=
+  match l.posixGet (parsePath path).comps with
+  | some .dir => some .dir
+  | some (.file b) => if (parsePath path).mustDir then none else some (.file b)
+  | none => none
+
+/-- **stat_is_path_walk.** The model's `stat` looks a path up in one step in the flat map; on a
+layer satisfying the tree invariant this *is* the kernel's path walk, for every path string.  This
+is the only place the model relies on the invariant; `history_closed` supplies it for every
+reachable state. -/
+theorem stat_is_path_walk (l : Layer) (hc : l.Closed) (path : Bytes) : l.stat path = statPosix l path := by
+  unfold Layer.stat statPosix
+  rw [Layer.posixGet_eq_get hc]
+  dsimp only
+  cases l.get (parsePath path).comps with
+  | none => rfl
+  | some n => cases n <;> rfl
+
+private theorem posixFileAt_walkOf {l : Layer} (hc : l.Closed) (q : Loc) :
+    (walkOf l).posixFileAt q = (walkOf l).fileAt q := by
+  unfold Walk.posixFileAt Walk.fileAt
+  rw [posixAt_walkOf hc]
+
+/-- **read_top with the kernel's reading of the walks.** On closed layers (every reachable state,
+`history_closed`) `read` returns the bytes of the highest layer in which the *path walk* reaches a
+regular file. -/
+theorem read_top_posix (E : Env) (fs : Fs) (hwf : ∀ l ∈ fs.layers, l.Closed)
+    {p : Bytes} {q : Loc} (h : locOf p = some q) :
+    fs.read E p false =
+      match topFilePosix (walksOf fs) q with
+      | none => .err .NotFound
+      | some s =>
+        if isCompressed fs.cfg.lz p then reclass .Decoding ((E.lz fs.cfg.lz).decompress s) else .ok s := by
+  have hcongr : ∀ (ws : List Walk) (f g : Walk → Option Bytes), (∀ w ∈ ws, f w = g w) →
+      ws.findSome? f = ws.findSome? g := by
+    intro ws f g hfg
+    induction ws with
+    | nil => rfl
+    | cons w rest ih =>
+      simp only [List.findSome?_cons, hfg w (by simp)]
+      cases g w with
+      | none => exact ih (fun x hx => hfg x (by simp [hx]))
+      | some b => rfl
+  have : topFilePosix (walksOf fs) q = topFile (walksOf fs) q := by
+    unfold topFilePosix topFile
+    apply hcongr
+    intro w hw
+    obtain ⟨l, hl, rfl⟩ := List.mem_map.mp (List.mem_reverse.mp hw)
+    exact posixFileAt_walkOf (hwf l hl) q
+  rw [this]
+  exact read_top E fs h
+
+/-- A layer that is *not* a tree: a regular file `a` and a stale entry `a/b` below it. -/
+private def brokenLayer : Layer :=
+  [([bs ['a']], .file [1]), ([bs ['a'], bs ['b']], .file [2])]
+
+/-- **The dependence is real.** On a non-closed layer the model's one-step lookup finds `a/b`
+although the kernel's path walk stops at the regular file `a` (ENOTDIR): `stat` and `statPosix`
+disagree, and `read` returns bytes where the path-walk reading of the same walk says NotFound.
+Such layers are unreachable (`history_closed`); `Layer.isTreeB` rejects this one. -/
+example :
+    ¬ brokenLayer.Closed ∧ brokenLayer.isTreeB = false ∧
+    brokenLayer.stat (bs ['a', '/', 'b']) = some (.file [2]) ∧
+    statPosix brokenLayer (bs ['a', '/', 'b']) = none ∧
+    (⟨[brokenLayer], .FE14, ⟨.lz13, .FE14, .little, .unicode⟩, .EnglishNA⟩ : Fs).read demoEnv (bs ['a', '/', 'b']) false = .ok [2] ∧
+    topFilePosix [walkOf brokenLayer] ⟨[bs ['a'], bs ['b']], false⟩ = none := by
+  refine ⟨?_, by decide, by decide, by decide, by decide, by decide⟩
+  intro hc
+  have := hc.parents ([bs ['a'], bs ['b']], .file [2]) (by simp [brokenLayer]) [bs ['a']]
+    ⟨by simp, by simp [bs], by simp⟩
+  revert this; decide
+
+/-- Non-vacuity of the invariant: the demo filesystem's layers are trees (checked by the executable
+test), and stay so after a write that creates `m/@E` in the top layer. -/
+example : (∀ l ∈ demoFs.layers, l.Closed) ∧
+    ∀ l ∈ (run demoEnv demoFs [.write (bs ['m', '/', 'x', '.', 'l', 'z']) [7, 7] true,
+                               .createDir (bs ['f', '/', 'g']) false]).layers, l.Closed := by
+  have h0 : ∀ l ∈ demoFs.layers, l.Closed := by
+    intro l hl
+    apply Layer.closed_of_isTreeB
+    simp only [demoFs, List.mem_cons, List.mem_nil_iff, or_false] at hl
+    rcases hl with rfl | rfl <;> decide
+  exact ⟨h0, history_closed demoEnv demoFs _ h0⟩
 
 end Mila.Props.C12
